@@ -17,6 +17,8 @@ def one(d):
             try: res = json.loads(ln)
             except Exception: pass
     caught = [c for c, rc in res.items() if rc == 1]
+    if not res and "patch does not apply" in r.stdout:
+        return os.path.basename(d), "MISSED (stale patch: does not apply to the current tree)", res
     return os.path.basename(d), ("caught by " + " ".join(caught)) if caught else "MISSED (%s)" % res, res
 
 def main():
